@@ -49,6 +49,22 @@ func (f *RunningEventFilter) ensureInit() error {
 
 // NewRunningEventFilterHot returns a RunningEventFilter that wraps the provided
 // aggregated filter with the expected next block to process.
+// Reset discards the in-memory window of a lazily initialised filter, so that the next use
+// re-initialises it from the database. Insert/OnReorg update the window inside the caller's
+// batch, before that batch is committed; a caller whose commit failed must Reset the filter,
+// otherwise it stays ahead of the database. No-op for a filter built with
+// [NewRunningEventFilterHot].
+func (f *RunningEventFilter) Reset() {
+	f.mu.Lock()
+	defer f.mu.Unlock()
+
+	if f.initialize == nil {
+		return
+	}
+	f.inner, f.next, f.initErr = nil, 0, nil
+	f.lazyOnce = sync.Once{}
+}
+
 func NewRunningEventFilterHot(
 	database db.KeyValueStore,
 	filter *AggregatedBloomFilter,
